@@ -53,6 +53,16 @@ theorem dump_form (bs : List Nat) (h : ∀ b ∈ bs, b < 256) :
   obtain ⟨d, k, hd, hal, hk, hlen, _⟩ := b2a_shape bs h
   exact ⟨d, k, hd, hal, hk, hlen, b2a_ascii bs h⟩
 
+/-- the dumped text has `4 * ⌈n / 3⌉` characters -/
+theorem dump_length (bs : List Nat) : (b2a bs).length = 4 * ((bs.length + 2) / 3) := by
+  induction bs using b2a.induct with
+  | case1 => rfl
+  | case2 a => simp [b2a]
+  | case3 a b => simp [b2a]
+  | case4 a b c rest ih =>
+    simp only [b2a, List.length_cons, ih]
+    omega
+
 /-- the regular expression read as a set of strings -/
 theorem pattern_is_documented (cs : List Nat) :
     matchesPattern cs = true ↔ ∃ d k, cs = d ++ List.replicate k PAD ∧ d.all isAlpha = true ∧ k ≤ 2 :=
